@@ -114,6 +114,9 @@ def adversarial():
         out.append({"kind": "faults", "steps": [["call", 1, False], ["call", 2, False], ["sub", 1, "A", 2], ["sub", 2, None, 4], ["pollc", 1], ["pollc", 2], ["quiesce"],
                                                 ["signal", "A", 1], ["reply", 1], ["signal", "A", 2], [kind], ["allcredit"], ["quiesce"],
                                                 ["call", 3, False], ["sub", 3, "A", 1], ["quiesce"]]})
+        # later subscriptions: to a rule that had subscribers, to rules nobody had subscribed to, to everything
+        out.append({"kind": "faults", "steps": [["sub", 1, "A", 2], ["quiesce"], ["signal", "A", 1], [kind], ["allcredit"], ["quiesce"],
+                                                ["sub", 2, "Z", 2], ["sub", 3, None, 2], ["sub", 4, "A", 2], ["allcredit"], ["quiesce"], ["call", 1, False], ["quiesce"]]})
         for k in (1, 8, 15, 16, 17, 40, 90, 130):
             out.append({"kind": "faults", "steps": [["call", 1, False], ["sub", 1, "A", 2], ["pollc", 1], ["quiesce"], ["signal", "A", 1],
                                                     ["partial", "A", 2, k, "eof" if kind == "eof" else "err"], ["allcredit"], ["quiesce"], ["call", 2, True], ["quiesce"]]})
@@ -201,7 +204,7 @@ def random_scenario(rnd, kind):
     else:
         steps += [["writeerr"], ["eof"]]
     steps += pre[cut:] if rnd.random() < 0.3 else []
-    steps += [["allcredit"], ["quiesce"], ["call", 3, False], ["sub", 3, "A", 1], ["quiesce"]]
+    steps += [["allcredit"], ["quiesce"], ["call", 3, False], ["sub", 3, rnd.choice(["A", "B", "Z", None]), 1], ["allcredit"], ["quiesce"]]
     return {"kind": "faults", "steps": steps}
 
 
